@@ -552,6 +552,23 @@ func buildInputs(kind string, r *rand.Rand) (inputs [][]byte, what []string) {
 			}
 		}
 		add(base, "valid encoding")
+		if r.Intn(8) == 0 {
+			// hand-encoded: one sample whose stack alone is a message of about 16 KiB (the length
+			// prefix of an embedded message grows from two to three bytes at 16384)
+			depth := []int{16300, 16381, 16384, 16390, 20000}[r.Intn(5)]
+			ids := make([]byte, depth)
+			for i := range ids {
+				ids[i] = 1
+			}
+			sample := wire.Encode([]wire.Field{{Num: 1, WT: 2, Data: ids}, {Num: 2, WT: 2, Data: []byte{5}}})
+			msg := wire.Encode([]wire.Field{
+				{Num: 1, WT: 2, Data: wire.Encode([]wire.Field{{Num: 1, WT: 0, V: 1}, {Num: 2, WT: 0, V: 2}})},
+				{Num: 2, WT: 2, Data: sample},
+				{Num: 4, WT: 2, Data: wire.Encode([]wire.Field{{Num: 1, WT: 0, V: 1}, {Num: 3, WT: 0, V: 0x1000}})},
+				{Num: 6, WT: 2, Data: nil}, {Num: 6, WT: 2, Data: []byte("samples")}, {Num: 6, WT: 2, Data: []byte("count")},
+			})
+			add(msg, fmt.Sprintf("valid encoding with a stack of %d frames", depth))
+		}
 		for k := 0; k < 24; k++ {
 			m := base
 			for j, n := 0, 1+r.Intn(3); j < n; j++ {
